@@ -166,6 +166,9 @@ var edgeBytes = []byte{0x00, 0x01, 0x09, 0x0a, 0x0d, 0x1f, 0x20, 0x22, 0x27, 0x3
 	0x80, 0x81, 0x8f, 0x90, 0x9f, 0xa0, 0xbf, 0xc0, 0xc1, 0xc2, 0xdf, 0xe0, 0xe1, 0xec, 0xed, 0xee, 0xef, 0xf0, 0xf1, 0xf3, 0xf4, 0xf5, 0xff}
 
 func TestLiteralExhaustive(t *testing.T) {
+	if pbt.Shard != 0 && pbt.ReplayPath == "" {
+		t.Skip("fixed enumeration: shard 0 only")
+	}
 	pbt.Enumerate(t, "literal-exhaustive",
 		"every 0-, 1- and 2-byte string, every 3-byte string over 44 UTF-8 class-boundary bytes, 4-byte strings over lead/continuation boundary bytes; each with outputASCII off and on; Encoder.WriteString -> reference unescaper, text.Decoder, UnmarshalString; non-trivial = has a byte >= 0x80 or a control byte",
 		true,
@@ -330,6 +333,9 @@ func checkStyled(c styledCase) error {
 }
 
 func TestStyledExhaustive(t *testing.T) {
+	if pbt.Shard != 0 && pbt.ReplayPath == "" {
+		t.Skip("fixed enumeration: shard 0 only")
+	}
 	pbt.Enumerate(t, "ref-escaped-exhaustive",
 		"every 1- and 2-byte string written by the reference writer in each single escape form (raw, simple, octal 3/min, hex 2/min/upper, \\u, \\U) and both quote characters -> text.Decoder and UnmarshalString; non-trivial = has a byte >= 0x80 or a control byte",
 		true,
@@ -661,6 +667,9 @@ func TestPrototextE2E(t *testing.T) {
 
 // every single byte and every 2-byte string through the proto2 string and bytes fields
 func TestPrototextE2EExhaustive(t *testing.T) {
+	if pbt.Shard != 0 && pbt.ReplayPath == "" {
+		t.Skip("fixed enumeration: shard 0 only")
+	}
 	pbt.Enumerate(t, "prototext-e2e-exhaustive",
 		"every 1-byte string (all option combinations) and every 2-byte string (EmitASCII alternating with the first byte's parity, single line) in optional_string, optional_bytes and the map key/value of proto2 TestAllTypes through prototext.Marshal/Unmarshal; non-trivial = has a byte >= 0x80 or a control byte",
 		true,
@@ -991,6 +1000,9 @@ func TestEmitUnknown(t *testing.T) {
 
 // fixed shapes: each wire type alone with boundary values, empty group, maximal field number
 func TestEmitUnknownFixed(t *testing.T) {
+	if pbt.Shard != 0 && pbt.ReplayPath == "" {
+		t.Skip("fixed enumeration: shard 0 only")
+	}
 	pbt.Enumerate(t, "emit-unknown-fixed",
 		"single records of each wire type at boundary field numbers (1, 15, 16, 2047, 2048, 2^29-1) and boundary values, empty groups, groups nested 1..200 deep, every single byte as a bytes payload; all four EmitASCII x Multiline combinations; non-trivial = group or bytes record",
 		true,
